@@ -45,11 +45,13 @@ def install(I, W, st, info):
         ref, deps, val2, is_async = (Sym(U.fresh(n)) for n in ("ref", "deps", "resolved_val", "is_async"))
         st.pc.append(S.is_bool(I, is_async.t))
         info["resolved"] = (ref, deps, val2, is_async)
+        st.ghost["resolved_ref"] = ref          # per path: this path went through the reference resolution
         return [(st, TupV([ref, deps, val2, is_async]))]
     I.contracts["Parameters._resolve_ref"] = resolve_ref
 
     def update_ref(I, st, fv, args, kwargs, ctx):
         st.ghost["link_bookkeeping"] = st.ghost.get("link_bookkeeping", []) + ["_update_ref"]
+        st.ghost["link_calls"] = st.ghost.get("link_calls", []) + [(args[0], args[1], current_value(I, st, info))]
         return [(st, Conc(None))]
     I.contracts["Parameters._update_ref"] = update_ref
 
@@ -280,6 +282,36 @@ def set_contract(level, wcfg="B"):
                     z3.Implies(default_changed, z3.Or([default_now == v for v in validated]) if validated else z3.BoolVal(False))))
         if info["obj"] is not None:
             out.append(("C12/instance-set-never-writes-the-class-default", z3.Not(default_changed)))
+            if not isinstance(oc, Raise) and validated:
+                # an accepted assignment gives the instance its OWN value (it no longer follows the
+                # class default) — except for a constant of an initialized object, where only the very
+                # object already held is accepted
+                W_ = info["W"]
+                pinned = z3.And(T["constant"] == U.TRUE, W_.initialized(st) == U.TRUE)
+                own = (stored_val == validated[-1]) if stored_val is not None else z3.BoolVal(False)
+                out.append(("C12/an accepted instance assignment gives the instance its own value", z3.Or(pinned, own)))
+            if not isinstance(oc, Raise) and st.ghost.get("resolved_ref") is not None:
+                # link / unlink step: exactly one call, after the store, with the right target
+                ref_t = I.term(st.ghost["resolved_ref"])
+                calls = st.ghost.get("link_calls", [])
+                r0 = info["refs0"][0]
+                syn = st.heap[st.heap[info["W"].private.oid].fields["syncing"].oid].seq
+                linked = z3.Contains(r0, z3.Unit(U.lit(NAME)))
+                in_sync = I.seq_contains_eq(syn, U.lit(NAME))
+                if validated:
+                    if len(calls) == 1:
+                        nm_ok = z3.BoolVal(isinstance(calls[0][0], Conc) and calls[0][0].py == NAME)
+                        tgt = I.term(calls[0][1])
+                        after = z3.BoolVal(calls[0][2] is not None) if not isinstance(calls[0][2], bool) else z3.BoolVal(calls[0][2])
+                        if calls[0][2] is not None and stored_val is not None:
+                            after = calls[0][2] == stored_val
+                        good = z3.And(nm_ok, z3.Or(z3.And(ref_t != U.NONE, tgt == ref_t),
+                                                   z3.And(ref_t == U.NONE, linked, z3.Not(in_sync), tgt == U.NONE)))
+                    else:
+                        good = z3.BoolVal(len(calls) == 0) if len(calls) == 0 else z3.BoolVal(False)
+                        good = z3.And(good, ref_t == U.NONE, z3.Or(z3.Not(linked), in_sync))
+                    for px in ("C08", "C10"):
+                        out.append(("%s/an accepted assignment (re)links a reference, and a plain value unlinks the parameter unless that very name is being synced — whatever else is going on" % px, good))
         else:
             pass
         # ---- C14 guard ----
